@@ -177,7 +177,23 @@ theorem swim_wintering_pause (lag : Nat) (L : Nat) {ts tsE ts1 : TSt} {e : TEv} 
     (ht : t ∈ swimPolls[2].1.t) (harm : ts1.s.armed = some t) : ts1.now ≤ tsE.now + L + 240 + lag := by
   have hpoll := List.all_eq_true.mp (Bool.and_eq_true _ _ ▸ swim_checks lag).2 swimPolls[2] (List.getElem_mem _)
   simp only [pollOK, Bool.and_eq_true] at hpoll
-  exact staypoll_time (swim_cert lag) (limit_phase_checks lag).2 hpoll.1.1 hpoll.1.2 rfl hr hout hstep hin hstay ht harm
+  exact staypoll_time (swim_cert lag) (limit_phase_checks lag).2.1 hpoll.1.1 hpoll.1.2 rfl hr hout hstep hin hstay ht harm
+
+/-- C13 "in timed mode it stops by itself": the `timed` phase of Swim, entered at `tsE.now`.  If the polls delivered during the
+    stay that kept the phase fired no later than `L` after the entry — which the decision theorems give with `L` = lateness of
+    the first poll + the configured run time: `C13.timed_stops` (a poll that finds the accumulated time ≥ the delay tells `halt`
+    instead of re-arming), tied to the code by `DecisionsTie.swim_timed_poll` — then, for as long as the poll is the armed call,
+    the clock is at most entry + L + one poll (1 s) + lag: nothing but the poll itself touches the delayed call in that phase
+    (kernel-evaluated `noRearm` over the timer-view certificate), whatever commands and settings arrive meanwhile. -/
+theorem swim_timed_run (lag : Nat) (L : Nat) {ts tsE ts1 : TSt} {e : TEv} {t : MsgId}
+    (hr : TReach (swim lag) ts) (hout : inP swimPolls[0].1 ts.s = false) (hstep : TStep (swim lag) ts e tsE)
+    (hin : inP swimPolls[0].1 tsE.s = true) (hstay : StayPoll (swim lag) swimPolls[0].1 L tsE ts1)
+    (ht : t ∈ swimPolls[0].1.t) (harm : ts1.s.armed = some t) : ts1.now ≤ tsE.now + L + 2 + lag := by
+  have hpoll := List.all_eq_true.mp (Bool.and_eq_true _ _ ▸ swim_checks lag).2 swimPolls[0] (List.getElem_mem _)
+  simp only [pollOK, Bool.and_eq_true] at hpoll
+  exact staypoll_time (swim_cert lag) (limit_phase_checks lag).2.2 hpoll.1.1 hpoll.1.2 rfl hr hout hstep hin hstay ht harm
+
+example : swimPolls[0].1.P = [Swim.leaf_timed] ∧ swimPolls[0].2 = 2 := by decide
 
 /-- the phases meant above are the tank's `fill` and `low`, and the two `wintering_waiting` phases, with 5 s resp. 2 min polls -/
 example : (tankPolls.take 2).map (fun p => (p.1.P, p.2)) = [([Tank.leaf_fill], 10), ([Tank.leaf_low], 10)] ∧
